@@ -32,13 +32,14 @@ macro_rules
       | (split at hs <;> curtac))
 
 /-- every job step other than the version swap leaves `current` alone -/
-theorem cur_jstep {cfg : Cfg} {s s' : St} {j : Nat} (hs : jstep cfg s j = some s') :
+theorem cur_jstep {cfg : Cfg} {s s' : St} {j : Nat} (hpf : cfg.pendFirst = true) (hs : jstep cfg s j = some s') :
     s'.cur = s.cur ∨ (j < s.nJob ∧ (s.job j).pc = .cSnapped ∧ s' = jSwap s j) := by
   unfold jstep at hs
+  simp only [hpf, ↓reduceIte] at hs
   split at hs
   case isFalse => cases hs
   case isTrue hj =>
-  dsimp only at hs
+  try dsimp only at hs
   split at hs
   case h_9 hpc => cases hs; exact Or.inr ⟨hj, hpc, rfl⟩
   case h_3 hpc =>
@@ -65,11 +66,11 @@ theorem cur_jstep {cfg : Cfg} {s s' : St} {j : Nat} (hs : jstep cfg s j = some s
     · cases hs
   all_goals curtac
 
-theorem cur_step {cfg : Cfg} {s s' : St} {a : Act} (hs : step cfg s a = some s') :
+theorem cur_step {cfg : Cfg} {s s' : St} {a : Act} (hpf : cfg.pendFirst = true) (hs : step cfg s a = some s') :
     s'.cur = s.cur ∨ ∃ j, a = .jstep j ∧ j < s.nJob ∧ (s.job j).pc = .cSnapped ∧ s' = jSwap s j := by
   cases a with
   | jstep j =>
-    rcases cur_jstep hs with h | h
+    rcases cur_jstep hpf hs with h | h
     · exact Or.inl h
     · exact Or.inr ⟨j, rfl, h⟩
   | acquire => simp only [step] at hs; cases hs; exact Or.inl rfl
@@ -107,6 +108,16 @@ theorem cur_step {cfg : Cfg} {s s' : St} {a : Act} (hs : step cfg s a = some s')
     · cases hs; exact Or.inl rfl
     · cases hs
   | findErrRelease i fs =>
+    simp only [step] at hs
+    split at hs
+    · cases hs; exact Or.inl rfl
+    · cases hs
+  | sDec2 i =>
+    simp only [step] at hs
+    split at hs
+    · cases hs; exact Or.inl rfl
+    · cases hs
+  | getReaderNoRetain i f =>
     simp only [step] at hs
     split at hs
     · cases hs; exact Or.inl rfl
